@@ -156,6 +156,83 @@ Section SignProofs.
       repeat split; assumption.
   Qed.
 
+  (* ---------- declarative specification of VerifySignature ---------- *)
+
+  (* A key is accepted iff it is usable and the content has signed bytes m and
+       Metablock: the FIRST signature carrying the key's id is hex and the
+                  primitive accepts it under the key's public half over m;
+       Envelope:  EVERY signature is base64 and SOME signature whose key id
+                  is empty or the verifier's is accepted by the primitive. *)
+  Definition accepts_spec (e : env) (k : key) : Prop :=
+    key_usable k = true /\
+    exists m, signed_bytes e = Ok m /\
+      match e_wrapper e with
+      | Legacy => exists s raw, sig_for_keyid (e_sigs e) (k_keyid k) = Some s /\
+                                hex_dec (sg_sig s) = Some raw /\ vrfy_prim (pub k) m raw = true
+      | DSSE => (forall s, In s (e_sigs e) -> b64_dec (sg_sig s) <> None) /\
+                exists s raw, In s (e_sigs e) /\ dsse_skips k s = false /\
+                              b64_dec (sg_sig s) = Some raw /\ vrfy_prim (pub k) m raw = true
+      end.
+
+  Lemma verify_sig_iff_spec e k : vsig e k = true <-> accepts_spec e k.
+  Proof.
+    unfold Sign.vsig, Sign.verify_sig, accepts_spec, Sign.signed_bytes. destruct (e_wrapper e) eqn:EW; split.
+    - unfold Sign.verify_legacy. destruct (sig_for_keyid (e_sigs e) (k_keyid k)) as [s|] eqn:ES; [|discriminate].
+      destruct (key_usable k); [|discriminate]. cbn [negb].
+      destruct (signable (e_payload e)) as [m| |]; try discriminate. cbn [rbind].
+      destruct (hex_dec (sg_sig s)) as [raw|] eqn:EH; [|discriminate].
+      destruct (vrfy_prim (pub k) m raw) eqn:EV; [|discriminate]. intros _.
+      split; [reflexivity|]. exists m. split; [reflexivity|]. exists s, raw. auto.
+    - intros (HU & m & HM & s & raw & HS & HD & HV). unfold Sign.verify_legacy.
+      rewrite HS, HU, HM. cbn [negb rbind]. rewrite HD, HV. reflexivity.
+    - unfold Sign.verify_dsse. destruct (key_usable k); [|discriminate]. cbn [negb].
+      destruct (is_nil (e_sigs e)); [discriminate|].
+      destruct (dsse_loop k (pae c_PayloadType (e_pbytes e)) (e_sigs e) true 0) as [n| |] eqn:EL; try discriminate.
+      cbn [rbind]. destruct (dsse_loop_sound _ _ _ _ _ EL) as [->|[-> (s & raw & HI & H1 & H2 & H3)]]; [discriminate|].
+      intros _. split; [reflexivity|]. eexists. split; [reflexivity|]. split.
+      + exact (dsse_loop_decodes _ _ _ _ _ _ EL).
+      + exists s, raw. auto.
+    - intros (HU & m & HM & HD & s & raw & HI & HS & HB & HV). injection HM as <-.
+      unfold Sign.verify_dsse. rewrite HU. cbn [negb].
+      destruct (e_sigs e) as [|x r] eqn:ESG; [destruct HI|]. cbn [is_nil]. rewrite <- ESG in *.
+      rewrite (dsse_loop_accepts k (pae c_PayloadType (e_pbytes e)) (e_sigs e) 0 HD); [reflexivity|].
+      exists s, raw. auto.
+  Qed.
+
+  (* broken key material is an error, in both operations and both wrappers *)
+  Lemma unusable_key_sign_error e k : key_usable k = false -> sign e k = Err err_key.
+  Proof.
+    intro H. unfold Sign.sign, Sign.sign_legacy, Sign.sign_dsse. rewrite H. destruct (e_wrapper e); reflexivity.
+  Qed.
+
+  Lemma unusable_key_verify_error e k : key_usable k = false -> exists c, verify_sig e k = Err c.
+  Proof.
+    intro H. unfold Sign.verify_sig, Sign.verify_legacy, Sign.verify_dsse. rewrite H. destruct (e_wrapper e).
+    - destruct (sig_for_keyid (e_sigs e) (k_keyid k)); eexists; reflexivity.
+    - eexists; reflexivity.
+  Qed.
+
+  (* the model has no panic site of its own: a panic can only come out of the canonicaliser *)
+  Lemma verify_no_panic e k : (forall p site, signable p <> Panic site) -> is_panic (verify_sig e k) = false.
+  Proof.
+    intro HS. unfold Sign.verify_sig, Sign.verify_legacy, Sign.verify_dsse. destruct (e_wrapper e).
+    - destruct (sig_for_keyid (e_sigs e) (k_keyid k)) as [s|]; [|reflexivity].
+      destruct (key_usable k); [|reflexivity]. cbn [negb].
+      destruct (signable (e_payload e)) as [m|c|site] eqn:ES; cbn [rbind]; try reflexivity.
+      + destruct (hex_dec (sg_sig s)) as [raw|]; [|reflexivity]. destruct (vrfy_prim (pub k) m raw); reflexivity.
+      + exfalso. exact (HS _ _ ES).
+    - destruct (key_usable k); [|reflexivity]. cbn [negb]. destruct (is_nil (e_sigs e)); [reflexivity|].
+      assert (HL : forall sigs u acc, is_panic (dsse_loop k (pae c_PayloadType (e_pbytes e)) sigs u acc) = false).
+      { induction sigs as [|x r IH]; intros u acc; cbn [Sign.dsse_loop]; [reflexivity|].
+        destruct (b64_dec (sg_sig x)) as [raw|]; [|reflexivity].
+        destruct u; [|apply IH]. destruct (dsse_skips k x); [apply IH|].
+        destruct (vrfy_prim (pub k) (pae c_PayloadType (e_pbytes e)) raw); apply IH. }
+      specialize (HL (e_sigs e) true 0%nat).
+      destruct (dsse_loop k (pae c_PayloadType (e_pbytes e)) (e_sigs e) true 0) as [n|c|site]; cbn [rbind];
+        try reflexivity; try discriminate.
+      destruct (Nat.ltb n 1); reflexivity.
+  Qed.
+
   (* no stored signature is valid under k over the current bytes => rejected *)
   Lemma no_valid_signature_rejected e k m : signed_bytes e = Ok m ->
     (forall s raw, In s (e_sigs e) -> sig_decode (e_wrapper e) (sg_sig s) = Some raw ->
@@ -213,6 +290,16 @@ Section SignProofs.
     destruct (dsse_loop k (pae c_PayloadType (e_pbytes e)) (e_sigs e) true 0) as [n| |] eqn:EL; try reflexivity.
     exfalso. exact (dsse_loop_decodes _ _ _ _ _ _ EL s HI HD).
   Qed.
+
+  (* ---------- the signed bytes ---------- *)
+
+  Lemma signed_bytes_standard e :
+    signed_bytes e =
+    match e_wrapper e with
+    | Legacy => signable (e_payload e)
+    | DSSE => Ok (bs "DSSEv1 28 application/vnd.in-toto+json " ++ show_nat (length (e_pbytes e)) ++ [32] ++ e_pbytes e)
+    end.
+  Proof. unfold Sign.signed_bytes. destruct (e_wrapper e); [reflexivity|]. rewrite pae_in_toto. reflexivity. Qed.
 
   (* ---------- what Sign does ---------- *)
 
@@ -421,8 +508,8 @@ Section SignProofs.
     forall k', pub k' = pub k -> key_usable k' = true -> verify_sig e k' = Ok tt.
   Proof.
     intros HF HD e ks HU. destruct (run_inv ops e0 [] (inv_fresh _ _ _ HF) HD) as [HI HW].
-    apply (inv_verifies _ _ HI). intro HL. apply HU. fold e in HW. rewrite <- HL, HW.
-    exact (proj1 (fresh_spec _ _ _ HF)).
+    apply (inv_verifies _ _ HI). intro HL. apply HU.
+    rewrite <- (proj1 (fresh_spec _ _ _ HF)), <- HW. exact HL.
   Qed.
 
   (* strict histories (every operation succeeds) are a special case *)
